@@ -132,7 +132,79 @@ pub open spec fn ccr_key_ok(b: Seq<u8>) -> bool {
     let t = ccr_at_key(b); let d = per::per_len_dec(t);
     per::per_len_dec(b.skip(1)).0 == 5 && d.0 == 0 && t.len() >= d.1 + 4 && t.subrange(d.1, d.1 + 4) =~= seq![0x4du8, 0x63u8, 0x44u8, 0x6eu8]
 }
+// ---- documented POSITIONS inside the Conference Create Response (T.124 ConnectGCCPDU, MS-RDPBCGR 2.2.1.4 / annotated bytes of 4.1.4): ccr_off_X(b) = number
+// of octets of the response `b` that lie in front of the field FOLLOWING X, computed from the input bytes only (widths and order from the document, not
+// from the reader): the position claims of read_conference_create_response compare what the reader has consumed after each field with these.
+/// 00                    choice ConnectData::Key = object: 1 octet
+#[verifier::opaque]
+pub open spec fn ccr_off_key_choice(b: Seq<u8>) -> int { 1 }
+/// 05 00 14 7c 00 01     OBJECT IDENTIFIER: length determinant (1 octet, value 5) + 5 content octets = 6 (a two octet determinant `80 05` moves everything by one)
+#[verifier::opaque]
+pub open spec fn ccr_off_oid(b: Seq<u8>) -> int { let o = ccr_off_key_choice(b); o + per::per_len_dec(b.skip(o)).1 + 5 }
+/// LL [LL]               length of the connect PDU: PER length determinant, 1 octet (< 0x80) or 2 octets (top bit set)
+#[verifier::opaque]
+pub open spec fn ccr_off_connect_len(b: Seq<u8>) -> int { let o = ccr_off_oid(b); o + per::per_len_dec(b.skip(o)).1 }
+/// 14                    choice ConnectGCCPDU = conferenceCreateResponse: 1 octet
+#[verifier::opaque]
+pub open spec fn ccr_off_pdu_choice(b: Seq<u8>) -> int { ccr_off_connect_len(b) + 1 }
+/// nn nn                 nodeID (UserID, INTEGER 1001..65536): 16 bit offset from 1001, 2 octets
+#[verifier::opaque]
+pub open spec fn ccr_off_node_id(b: Seq<u8>) -> int { ccr_off_pdu_choice(b) + 2 }
+/// 0L tt..               tag (unconstrained INTEGER): length octet L (1, 2 or 4 in this profile), then L value octets
+#[verifier::opaque]
+pub open spec fn ccr_off_tag(b: Seq<u8>) -> int { let o = ccr_off_node_id(b); let d = per::per_len_dec(b.skip(o)); o + d.1 + d.0 as int }
+/// 00                    result (ENUMERATED, success = 0): 1 octet
+#[verifier::opaque]
+pub open spec fn ccr_off_result(b: Seq<u8>) -> int { ccr_off_tag(b) + 1 }
+/// 01                    number of UserData sets: 1 octet
+#[verifier::opaque]
+pub open spec fn ccr_off_set_count(b: Seq<u8>) -> int { ccr_off_result(b) + 1 }
+/// c0                    choice Key = h221NonStandard: 1 octet
+#[verifier::opaque]
+pub open spec fn ccr_off_h221_choice(b: Seq<u8>) -> int { ccr_off_set_count(b) + 1 }
+/// 00 4d 63 44 6e        H.221 key (OCTET STRING SIZE (4..255)) "McDn": length determinant (length - 4), then the 4 octets
+#[verifier::opaque]
+pub open spec fn ccr_off_h221_key(b: Seq<u8>) -> int { let o = ccr_off_h221_choice(b); o + per::per_len_dec(b.skip(o)).1 + 4 }
+/// LL [LL]               length of the user data (the server data blocks): PER length determinant, 1 or 2 octets; the blocks start here
+#[verifier::opaque]
+pub open spec fn ccr_off_user_data_len(b: Seq<u8>) -> int { let o = ccr_off_h221_key(b); o + per::per_len_dec(b.skip(o)).1 }
 """, mod="gcc", name="gcc_server_layouts"))
+# position lemmas of the Conference Create Response header (PROVED; the ccr_off_* definitions are opaque outside them): one step per field.  For field X
+# that follows field P: IF P's offset lies inside `b` and X fits behind it (facts about the INPUT only: the bounds a successful read of X implies), THEN
+# skipping X's width behind P's offset lands on ccr_off_X(b), which lies inside `b`.  The condition is part of the conclusion (no precondition).
+# (name of X, name of P, width of X as a function of r0 = the bytes from P's offset on, what a successful read of X implies about r0)
+_CCR_BYTE = ("1", "r0.len() >= 1")
+_CCR_LEN = ("per::per_len_dec(r0).1", "r0.len() >= 1 && (r0[0] & 0x80 != 0 ==> r0.len() >= 2)")
+CCR_STEPS = [("key_choice", None) + _CCR_BYTE,
+             ("oid", "key_choice", "per::per_len_dec(r0).1 + 5", "r0.len() >= per::per_len_dec(r0).1 + 5"),
+             ("connect_len", "oid") + _CCR_LEN,
+             ("pdu_choice", "connect_len") + _CCR_BYTE,
+             ("node_id", "pdu_choice", "2", "r0.len() >= 2"),
+             ("tag", "node_id", "per::per_int_dec(r0).1", "per::per_int_len_ok(r0) && r0.len() >= per::per_int_dec(r0).1"),
+             ("result", "tag") + _CCR_BYTE,
+             ("set_count", "result") + _CCR_BYTE,
+             ("h221_choice", "set_count") + _CCR_BYTE,
+             ("h221_key", "h221_choice", "per::per_len_dec(r0).1 + 4", "r0.len() >= per::per_len_dec(r0).1 + 4"),
+             ("user_data_len", "h221_key") + _CCR_LEN]
+def _ccr_prev(prev):
+    """(offset of the previous field, bytes from there on)"""
+    return ("0int", "b") if prev is None else ("ccr_off_%s(b)" % prev, "b.skip(ccr_off_%s(b))" % prev)
+def _ccr_cond(prev, pre):
+    o, r0 = _ccr_prev(prev)
+    return "0 <= %s <= b.len() && ({ let r0 = %s; %s })" % (o, r0, pre)
+A(Raw("".join("""
+pub proof fn lemma_ccr_off_%(x)s(b: Seq<u8>)
+    ensures (%(cond)s) ==> ({ let r0 = %(r0)s; r0.skip(%(adv)s) == b.skip(ccr_off_%(x)s(b)) }) && 0 <= ccr_off_%(x)s(b) <= b.len(),
+{
+    if %(cond)s {
+        reveal(ccr_off_%(x)s);
+        let o = %(o)s; let r0 = %(r0)s; let c = %(adv)s;
+        assert(0 <= c <= r0.len() && ccr_off_%(x)s(b) == o + c);
+        assert(r0.skip(c) =~= b.skip(o + c));
+    }
+}
+""" % dict(x=x, cond=_ccr_cond(prev, pre), o=_ccr_prev(prev)[0], r0=_ccr_prev(prev)[1], adv=adv) for (x, prev, adv, pre) in CCR_STEPS),
+      mod="gcc", name="gcc_ccr_position_lemmas"))
 A(Raw(r"""
 impl vstd::std_specs::cmp::PartialEqSpecImpl for Version {
     open spec fn obeys_eq_spec() -> bool { true }
@@ -211,6 +283,19 @@ GF("write_conference_create_request", props=["C04", "C18", "C03"], requires=["us
           (r"per::write_padding\(", 1, "proof { assert(Seq::new(1nat, |i: int| 0u8) =~= seq![0u8]); assert(result.written() =~= w1 + seq![0u8, 8u8, 0u8, 0x10u8, 0u8]); }"),
           (r"per::write_octet_stream\(&H221_CS_KEY", 1, "proof { assert(per::per_len(0u16) =~= seq![0u8]); assert(result.written() =~= w1 + seq![0u8, 8u8, 0u8, 0x10u8, 0u8, 1u8, 0xc0u8, 0u8, 0x44u8, 0x75u8, 0x63u8, 0x61u8]); }")],
    ensures=[("C04,C18", "t124-wrapper", "r is Ok ==> r->Ok_0@ =~= gcc_ccr(user_data@)")])
+# statement of read_conference_create_response that consumes each header field (the first four = the claims recorded first: nodeID, tag, result, key)
+CCR_ANCHORS = [(r"per::read_integer_16\(1001, cc_response\)\?;", 1, "node_id", "nodeID"),
+               (r"per::read_integer\(cc_response\)\?;", 1, "tag", "tag"),
+               (r"per::read_enumerates\(cc_response\)\?;", 1, "result", "result"),
+               (r"per::read_octet_stream\(&H221_SC_KEY, 4, cc_response\)\?;", 1, "h221_key", "h221-key"),
+               (r"per::read_choice\(cc_response\)\?;", 1, "key_choice", "key-choice"),
+               (r"per::read_object_identifier\(&T124_02_98_OID, cc_response\)\?;", 1, "oid", "object-identifier"),
+               (r"per::read_length\(cc_response\)\?;", 1, "connect_len", "connect-pdu-length"),
+               (r"per::read_choice\(cc_response\)\?;", 2, "pdu_choice", "pdu-choice"),
+               (r"per::read_number_of_set\(cc_response\)\?;", 1, "set_count", "number-of-sets"),
+               (r"per::read_choice\(cc_response\)\?;", 3, "h221_choice", "h221-choice"),
+               (r"let length = per::read_length\(cc_response\)\?;", 1, "user_data_len", "user-data-length")]
+_CCR_STEP = {x: (prev, pre) for (x, prev, adv, pre) in CCR_STEPS}
 GF("read_conference_create_response", props=["C05", "C03", "C18"],
    body_sub=[(r"cc_response\.take\(length as u64\)", "take_reader(cc_response, length as u64)")],
    nloops=2,
@@ -219,12 +304,21 @@ GF("read_conference_create_response", props=["C05", "C03", "C18"],
    pre="let ghost b = cc_response.rest();",
    # refusal justification (MS-RDPBCGR 2.2.1.3.1 TS_UD_HEADER: length counts the 4 header bytes): a block is refused as too short only when the
    # length field just read is below 4 (stated on the view of the header that was read: the loop does not track the position of the block in the input)
-   claims=[(r"return Err\(.*GCC: block length smaller than its header", 1, "proof { assert(header.fields()[1].0 == \"length\"@ && header.fields()[1].1 is U16 && header.fields()[1].1->U16_0 < 4); }", "before", "C03,C18", "block-refused-only-when-its-length-is-below-4")],
+   claims=[(r"return Err\(.*GCC: block length smaller than its header", 1, "proof { assert(header.fields()[1].0 == \"length\"@ && header.fields()[1].1 is U16 && header.fields()[1].1->U16_0 < 4); }", "before", "C03,C18", "block-refused-only-when-its-length-is-below-4")]
+          # POSITION claims (T.124 / MS-RDPBCGR 2.2.1.4, annotated bytes in 4.1.4): after each header field has been read, what has been consumed of the
+          # response `b` is exactly the documented prefix in front of the next field (ccr_off_*: order and widths from the document, computed from the input;
+          # the prefix lies inside `b`).  A reader that takes the fields in another order or width (tag and result exchanged ...) fails the claim at that field.
+          + [(rx, nth, "proof { assert(0 <= ccr_off_%s(b) <= b.len() && cc_response.rest() =~= b.skip(ccr_off_%s(b))); }" % (x, x), "after", "C18,C03,C05", "header-position-after-" + what)
+             for (rx, nth, x, what) in CCR_ANCHORS],
    hints=[(r"server_core\.read\(", 1, "proof { assert(server_core.fields()[0].0 == \"rdpVersion\"@); }"),
           (r"server_net\.read\(", 1, "proof { assert(server_net.fields()[2].0 == \"channelIdArray\"@); }"),
           (r"per::read_octet_stream\(", 1, "proof { assert(cc_response.rest() == ccr_at_key(b)); }", "before"),
           (r"per::read_octet_stream\(", 1, "proof { assert(H221_SC_KEY@ =~= seq![0x4du8, 0x63u8, 0x44u8, 0x6eu8]); assert(ccr_key_ok(b)) by { reveal(ccr_key_ok); } }"),
-          (r"let block_length = cast!\(DataType::U16, header\[\"length\"\]\)\?;", 1, "proof { reveal_with_fuel(same_shape, 3); lemma_keys(); assert(ser(header.mv()).len() == 4); let f = header.fields(); assert(f.len() == 2 && f[0].0 == \"type\"@ && f[1].0 == \"length\"@ && f[1].1 is U16); assert(block_length == f[1].1->U16_0); }")],
+          (r"let block_length = cast!\(DataType::U16, header\[\"length\"\]\)\?;", 1, "proof { reveal_with_fuel(same_shape, 3); lemma_keys(); assert(ser(header.mv()).len() == 4); let f = header.fields(); assert(f.len() == 2 && f[0].0 == \"type\"@ && f[1].0 == \"length\"@ && f[1].1 is U16); assert(block_length == f[1].1->U16_0); }")]
+         # proof aids of the position claims: calls of the position lemmas, whose conclusions are CONDITIONAL on facts about the input `b` alone (they have
+         # no precondition and cannot fail; when the reader has not consumed the documented widths the condition is not provable, the lemma says
+         # nothing, and the position claim that follows is what fails)
+         + [(rx, nth, "proof { lemma_ccr_off_%s(b); }" % x) for (rx, nth, x, what) in CCR_ANCHORS],
    ensures=[("C05", "monotone", "true"),
             # T.124 / MS-RDPBCGR 2.2.1.4 (wire level, necessary conditions of acceptance): the reader walks the PER fields in the documented order and widths (ccr_at_key) and
             # accepts only the H.221 non standard key "McDn" with length determinant 0 (= 4 - the lower bound 4) behind an OBJECT IDENTIFIER of 5 content bytes
